@@ -1,5 +1,5 @@
 // replay for C08.table/*: the real tools::Table written with Save and loaded again with Load
-// usage: replay_table <flags|yerr> <file>; exit 1 when the table read back differs from the table written
+// usage: replay_table <flags|yerrflags|yerr> <file>  (yerrflags: table with an error column, only x, y and the flags are compared); exit 1 when the table read back differs from the table written
 #include <cmath>
 #include <iostream>
 #include <string>
@@ -10,13 +10,14 @@ int main(int argc, char **argv) {
   std::string mode = argv[1], file = argv[2];
   Table t;
   t.resize(4);
-  if (mode == "yerr") {
+  const bool with_err = (mode != "flags");
+  if (with_err) {
     t.SetHasYErr(true);
     t.yerr().resize(4);
   }
   const char fl[4] = {'i', 'o', 'u', 'i'};
   for (votca::Index i = 0; i < 4; ++i) {
-    if (mode == "yerr")
+    if (with_err)
       t.set(i, 0.5 * double(i), 1.0 + double(i), fl[i], 0.125 * double(i + 1));
     else
       t.set(i, 0.5 * double(i), 1.0 + double(i), fl[i]);
